@@ -1,7 +1,593 @@
-//! C12: correspondence + oracle runs (sub-commands `c12` / `c12-*`).
+//! C12: TCP behaviour is independent of absolute sequence numbers (mod 2^32).
+//!
+//! `c12` (grid): the five circular comparison primitives of `tcb/modular_cmp.rs`, called on the
+//! REAL code, on the grid a ∈ {0, 1, 2^31−1, 2^31, 2^31+1, 2^32−1, rnd} × d ∈ {0, 1, 2, 2^31−2,
+//! 2^31−1, 2^31, 2^31+1, 2^32−1, rnd} (× e from the same set for the third argument of
+//! `mod_bounded`, × both `ModCmp` arguments).  One op per line (`lt a b`, `leq a b`, `gt a b`,
+//! `geq a b`, `bnd a c1 b c2 c`), answer `1`/`0`; the Lean driver evaluates the kernels extracted
+//! from the same source file on the same lines.  Native oracle (written from the property, in
+//! 64-bit offset arithmetic, independent of the code): agreement with the mathematical circular
+//! order for all pairs less than 2^31 apart, mutual consistency (strict / non-strict /
+//! flipped / bounded-between) for ALL pairs, invariance under a common shift.
+//!
+//! `c12-run`: every two-endpoint schedule of C01 (`schedule_case`) is executed on the real `Tcb`
+//! with the ISN pair the generator drew, then the same op lines are executed again with another
+//! ISN pair (uniform; dense within ±70000 of 0 and of 2^31; and placed so that the sequence
+//! space wraps in the middle of the handshake or of the transfer).  Oracle: the two traces,
+//! normalised by the ISNs, are identical: results, flags / lengths / payload hashes / window /
+//! SEQ−ISS / ACK−IRS of every emitted segment, bytes delivered, connection state, and the
+//! relative positions of SND.UNA, SND.NXT, RCV.NXT and of everything queued.  The first run is
+//! also compared with the Lean model (same answers as C01).
+use super::c01::*;
+use elvis_core::protocols::tcp::verif::verif_modcmp::{mod_bounded, mod_geq, mod_gt, mod_leq, mod_lt, ModCmp};
+use elvis_core::protocols::tcp::verif::{State, TcpHeader, VerifTcbSnapshot};
 use hcommon::*;
 
+const RULE_GRID: &str = "mod_lt/mod_leq/mod_gt/mod_geq on (a, a+d) and (a+d, a), mod_bounded on (a, c1, a+d, c2, a+e) for both ModCmp values, a in {0,1,2^31-1,2^31,2^31+1,2^32-1,rnd}, d,e in {0,1,2,2^31-2,2^31-1,2^31,2^31+1,2^32-1,rnd}; evaluated on the real functions, by the extracted kernels in Lean, and against the circular-order specification; every case is non-trivial (fresh random a, d, e, shift); distinct = hash of its op lines";
+const RULE_RUN: &str = "two real Tcbs under the C01 schedules (active/passive or simultaneous open, loss, duplication, reordering, timers, writes before and after ESTABLISHED), executed twice with different ISN pairs (uniform / within 70000 of 0 and 2^31 / wrapping mid-handshake or mid-transfer); the ISN-normalised traces must be identical; first execution also diffed against the Lean model; non-trivial if application data was delivered; distinct = hash of the op lines";
+
+const P31: u64 = 1 << 31;
+const P32: u64 = 1 << 32;
+
+// ---------------------------------------------------------------------------------------------
+// grid
+// ---------------------------------------------------------------------------------------------
+fn cmp_name(c: ModCmp) -> &'static str {
+    match c {
+        ModCmp::Lt => "lt",
+        ModCmp::Leq => "leq",
+    }
+}
+fn parse_cmp(s: &str) -> Option<ModCmp> {
+    match s {
+        "lt" => Some(ModCmp::Lt),
+        "leq" => Some(ModCmp::Leq),
+        _ => None,
+    }
+}
+fn bit(b: bool) -> &'static str {
+    if b {
+        "1"
+    } else {
+        "0"
+    }
+}
+
+/// class of a distance for the identity of a finding: the exact value for the grid points,
+/// `other` for random ones
+fn dclass(d: u32) -> String {
+    let d = d as u64;
+    if d <= 2 || (d + 2 >= P31 && d <= P31 + 1) || d == P32 - 1 {
+        format!("{}", d)
+    } else if d < P31 {
+        "other<2^31".into()
+    } else {
+        "other>2^31".into()
+    }
+}
+
+/// evaluate one grid line on the real code; `None` = malformed line
+fn eval_line(w: &[&str]) -> Option<Result<bool, PanicInfo>> {
+    let n = |s: &str| s.parse::<u64>().ok().filter(|v| *v < P32).map(|v| v as u32);
+    Some(match w {
+        ["lt", a, b] => {
+            let (a, b) = (n(a)?, n(b)?);
+            catch(|| mod_lt(a, b))
+        }
+        ["leq", a, b] => {
+            let (a, b) = (n(a)?, n(b)?);
+            catch(|| mod_leq(a, b))
+        }
+        ["gt", a, b] => {
+            let (a, b) = (n(a)?, n(b)?);
+            catch(|| mod_gt(a, b))
+        }
+        ["geq", a, b] => {
+            let (a, b) = (n(a)?, n(b)?);
+            catch(|| mod_geq(a, b))
+        }
+        ["bnd", a, c1, b, c2, c] => {
+            let (a, b, c, c1, c2) = (n(a)?, n(b)?, n(c)?, parse_cmp(c1)?, parse_cmp(c2)?);
+            catch(|| mod_bounded(a, c1, b, c2, c))
+        }
+        _ => return None,
+    })
+}
+
+/// the property, for one line: `Some(expected)` where the circular order prescribes the answer
+/// (the two numbers compared are less than 2^31 apart / the interval is shorter than 2^31)
+fn spec_line(w: &[&str]) -> Option<bool> {
+    let n = |s: &str| s.parse::<u64>().ok();
+    match w {
+        [f @ ("lt" | "leq" | "gt" | "geq"), a, b] => {
+            let (a, b) = (n(a)?, n(b)?);
+            let fwd = (b + P32 - a) % P32; // b is `fwd` ahead of a
+            let bwd = (a + P32 - b) % P32; // a is `bwd` ahead of b
+            if fwd < P31 {
+                // a ≤ b in the circular order, a < b iff fwd > 0
+                Some(match *f {
+                    "lt" => fwd > 0,
+                    "leq" => true,
+                    "gt" => false,
+                    _ => fwd == 0,
+                })
+            } else if bwd < P31 {
+                // b < a
+                Some(match *f {
+                    "lt" | "leq" => false,
+                    _ => true,
+                })
+            } else {
+                None // exactly 2^31 apart: no order prescribed
+            }
+        }
+        ["bnd", a, c1, b, c2, c] => {
+            let (a, b, c) = (n(a)?, n(b)?, n(c)?);
+            let x = (b + P32 - a) % P32;
+            let y = (c + P32 - a) % P32;
+            if y >= P31 {
+                return None;
+            }
+            let lo = if *c1 == "leq" { 0 } else { 1 };
+            let hi = if *c2 == "leq" { y + 1 } else { y }; // exclusive
+            Some(lo <= x && x < hi)
+        }
+        _ => None,
+    }
+}
+
+struct GridExec;
+impl GridExec {
+    /// run one line on the real code, print it, check it against the specification
+    fn apply(line: &str, out: &mut Out) -> Option<bool> {
+        let w: Vec<&str> = line.split_whitespace().collect();
+        match eval_line(&w) {
+            None => {
+                out.line(line, "bad-op");
+                None
+            }
+            Some(Err(p)) => {
+                out.line(line, "err panic");
+                let text = source_line_text(&p.file, p.line);
+                out.fail(&format!("`{}` panicked: {} (`{}`)", line, p.msg, text), &format!("panic modular_cmp {}", text));
+                None
+            }
+            Some(Ok(r)) => {
+                out.line(line, bit(r));
+                out.count(&format!("fn.{}.{}", w[0], bit(r)));
+                if let Some(exp) = spec_line(&w) {
+                    out.count("spec.checked");
+                    if exp != r {
+                        let (fname, d) = if w[0] == "bnd" {
+                            let (a, b, c) = (w[1].parse::<u64>().unwrap(), w[3].parse::<u64>().unwrap(), w[5].parse::<u64>().unwrap());
+                            (
+                                format!("mod_bounded {} {}", w[2], w[4]),
+                                format!("d={} e={}", dclass(((b + P32 - a) % P32) as u32), dclass(((c + P32 - a) % P32) as u32)),
+                            )
+                        } else {
+                            let (a, b) = (w[1].parse::<u64>().unwrap(), w[2].parse::<u64>().unwrap());
+                            let fwd = (b + P32 - a) % P32;
+                            let d = if fwd < P31 { fwd } else { (a + P32 - b) % P32 };
+                            (format!("mod_{}", w[0]), format!("d={}", dclass(d as u32)))
+                        };
+                        out.fail(
+                            &format!("`{}` = {} but the circular order says {} (numbers less than 2^31 apart)", line, r, exp),
+                            &format!("input {} {}", fname, d),
+                        );
+                    }
+                }
+                Some(r)
+            }
+        }
+    }
+}
+
+fn grid_values(rng: &mut Rng) -> (Vec<u32>, Vec<u32>) {
+    let p31 = P31 as u32;
+    let a = vec![0, 1, p31 - 1, p31, p31 + 1, u32::MAX, rng.next() as u32];
+    let rnd_d = match rng.below(3) {
+        0 => rng.below(P31) as u32,
+        1 => (P31 + rng.below(P31)) as u32,
+        _ => rng.below(70000) as u32,
+    };
+    let d = vec![0, 1, 2, p31 - 2, p31 - 1, p31, p31 + 1, u32::MAX, rnd_d];
+    (a, d)
+}
+
+fn grid_case(rng: &mut Rng, out: &mut Out) {
+    let (avals, dvals) = grid_values(rng);
+    let (_, evals) = grid_values(rng);
+    let k = rng.next() as u32;
+    let get = |r: Option<bool>| r.unwrap_or(false);
+    for &a in &avals {
+        for &d in &dvals {
+            let b = a.wrapping_add(d);
+            let mut res = std::collections::BTreeMap::new();
+            for f in ["lt", "leq", "gt", "geq"] {
+                for (x, y, dir) in [(a, b, "f"), (b, a, "b")] {
+                    let r = GridExec::apply(&format!("{} {} {}", f, x, y), out);
+                    res.insert((f, dir), get(r));
+                }
+            }
+            // mutual consistency, for ALL pairs (also 2^31 or more apart)
+            for (x, y, dir, rev) in [(a, b, "f", "b"), (b, a, "b", "f")] {
+                let mut bad = vec![];
+                if res[&("leq", dir)] != (res[&("lt", dir)] || x == y) {
+                    bad.push(("mod_leq", "mod_leq(a,b) != (mod_lt(a,b) || a == b)"));
+                }
+                if res[&("geq", dir)] != (res[&("gt", dir)] || x == y) {
+                    bad.push(("mod_geq", "mod_geq(a,b) != (mod_gt(a,b) || a == b)"));
+                }
+                if res[&("gt", dir)] != res[&("lt", rev)] {
+                    bad.push(("mod_gt", "mod_gt(a,b) != mod_lt(b,a)"));
+                }
+                if res[&("geq", dir)] != res[&("leq", rev)] {
+                    bad.push(("mod_geq", "mod_geq(a,b) != mod_leq(b,a)"));
+                }
+                out.count("consistency.checked");
+                let dist = y.wrapping_sub(x);
+                for (f, what) in bad {
+                    out.fail(
+                        &format!("a={} b={} (b-a={}): {}", x, y, dist, what),
+                        &format!("inconsistent {} d={}", f, dclass(dist.min(x.wrapping_sub(y)))),
+                    );
+                }
+            }
+            // shift invariance (native): f(a+k, b+k) = f(a, b)
+            let (ak, bk) = (a.wrapping_add(k), b.wrapping_add(k));
+            for (name, f) in [("mod_lt", mod_lt as fn(u32, u32) -> bool), ("mod_leq", mod_leq), ("mod_gt", mod_gt), ("mod_geq", mod_geq)] {
+                out.count("shift.checked");
+                if f(ak, bk) != f(a, b) || f(bk, ak) != f(b, a) {
+                    out.fail(&format!("{}({},{}) differs from the same pair shifted by {}", name, a, b, k), &format!("shift {} d={}", name, dclass(d)));
+                }
+            }
+            for &e in &evals {
+                let c = a.wrapping_add(e);
+                for c1 in [ModCmp::Lt, ModCmp::Leq] {
+                    for c2 in [ModCmp::Lt, ModCmp::Leq] {
+                        let r = GridExec::apply(&format!("bnd {} {} {} {} {}", a, cmp_name(c1), b, cmp_name(c2), c), out);
+                        out.count("shift.checked");
+                        if let Some(r) = r {
+                            if mod_bounded(ak, c1, bk, c2, c.wrapping_add(k)) != r {
+                                out.fail(
+                                    &format!("mod_bounded({},{:?},{},{:?},{}) differs from the same triple shifted by {}", a, c1, b, c2, c, k),
+                                    &format!("shift mod_bounded d={} e={}", dclass(d), dclass(e)),
+                                );
+                            }
+                        }
+                    }
+                }
+            }
+        }
+    }
+}
+
+fn run_grid(args: &Args) {
+    let mut out = Out::new(&args.out);
+    out.max_failures = 40;
+    if let Some(p) = &args.replay {
+        out.begin_case(0);
+        out.mark_nontrivial();
+        for l in read_ops(p) {
+            if l.starts_with("case ") {
+                continue;
+            }
+            GridExec::apply(&l, &mut out);
+        }
+        out.end_case();
+        out.finish(RULE_GRID);
+        return;
+    }
+    let mut rng = Rng::new(args.seed);
+    for c in 0..args.cases {
+        let mut r = rng.fork();
+        out.begin_case(c);
+        out.mark_nontrivial();
+        grid_case(&mut r, &mut out);
+        out.end_case();
+    }
+    out.finish(RULE_GRID);
+}
+
+// ---------------------------------------------------------------------------------------------
+// runs: same schedule, two ISN pairs
+// ---------------------------------------------------------------------------------------------
+fn rel(v: u32, base: u32) -> u32 {
+    v.wrapping_sub(base)
+}
+
+/// a header emitted by the side whose ISS is `iss` towards the peer whose ISS is `irs`.
+/// The one absolute field the RFC mandates is kept absolute: the RST|ACK that answers a segment
+/// without ACK outside a connection carries SEQ = 0 (RFC 9293 3.10.7.1) — `segment_arrives_closed`
+/// is the only place that builds a header with both RST and ACK.
+fn norm_hdr(h: &TcpHeader, iss: u32, irs: u32) -> String {
+    let seq = if h.ctl.rst() && h.ctl.ack() { format!("abs{}", h.seq) } else { format!("{}", rel(h.seq, iss)) };
+    let ack = if h.ctl.ack() { format!("{}", rel(h.ack, irs)) } else { format!("abs{}", h.ack) };
+    format!("{}.{}.f{}.w{}.u{}.o{}", seq, ack, u8::from(h.ctl), h.wnd, h.urg, h.data_offset)
+}
+
+fn norm_snapshot(s: &VerifTcbSnapshot, iss: u32, irs: u32) -> String {
+    let synsent = s.state == State::SynSent;
+    // RCV.* and SND.WL1 are unset (absolute 0) until the peer's SYN arrives
+    let r = |v: u32| if synsent { format!("abs{}", v) } else { format!("{}", rel(v, irs)) };
+    let rtx: Vec<String> = s.retransmit.iter().map(|(h, t, n)| format!("{}/{}/{}", norm_hdr(h, iss, irs), full(t), *n as u8)).collect();
+    let one: Vec<String> = s.oneshot.iter().map(|h| norm_hdr(h, iss, irs)).collect();
+    // parked segments came from the peer: their SEQ lives in the peer's space, their ACK in ours
+    let heap: Vec<String> = s.incoming_segments.iter().map(|(h, t)| format!("{}/{}", norm_hdr(h, irs, iss), full(t))).collect();
+    format!(
+        "st={} L={} mtu={} una={} nxt={} wnd={} wl1={} iss={} irs={} rnxt={} rwnd={} ot={} rtx=[{}] one=[{}] heap=[{}] it={} rto={} tw={:?}",
+        state_str(s.state),
+        s.initiation_listen as u8,
+        s.mtu,
+        rel(s.snd.0, iss),
+        rel(s.snd.1, iss),
+        s.snd.2,
+        r(s.snd.3),
+        rel(s.snd.5, iss),
+        r(s.rcv.0),
+        r(s.rcv.1),
+        s.rcv.2,
+        full(&s.outgoing_text),
+        rtx.join(","),
+        one.join(","),
+        heap.join(","),
+        full(&s.incoming_text),
+        s.retransmission_timeout.as_millis(),
+        s.time_wait.map(|d| d.as_millis())
+    )
+}
+
+fn isn_of_line(line: &str) -> Option<(SideId, u32)> {
+    let w: Vec<&str> = line.split_whitespace().collect();
+    match w.as_slice() {
+        ["open", x, iss, _] | ["listen", x, iss, _] => Some((if *x == "A" { SideId::A } else { SideId::B }, iss.parse::<u64>().ok()? as u32)),
+        _ => None,
+    }
+}
+
+/// execute `ops` on a fresh pair of real TCBs; `alt` replaces the ISNs of the `open`/`listen`
+/// lines; returns one normalised record per op line
+fn trace(ops: &[String], alt: Option<(u32, u32)>, scratch: &mut Out) -> Vec<(String, String, String)> {
+    let mut ex = Exec::new(Oracles { prefix: false, c17: false });
+    let mut isn = [0u32, 0u32];
+    let mut recs = vec![];
+    // how far each side's space moves (a side that never opens or listens does not move unless
+    // the alternative pair says so: its "ISN" counts as 0)
+    let mut orig = [0u32, 0u32];
+    let mut seen = [false, false];
+    for l in ops {
+        if let Some((x, v)) = isn_of_line(l) {
+            if !seen[x as usize] {
+                seen[x as usize] = true;
+                orig[x as usize] = v;
+            }
+        }
+    }
+    let delta = match alt {
+        Some((a, b)) => [a.wrapping_sub(orig[0]), b.wrapping_sub(orig[1])],
+        None => [0, 0],
+    };
+    isn = match alt {
+        Some((a, b)) => [a, b],
+        None => orig,
+    };
+    for l in ops {
+        if l.starts_with("case ") || l.starts_with("alt ") {
+            continue;
+        }
+        let mut line = l.clone();
+        {
+            // a forged segment addressed to x: SEQ lives in the peer's space, ACK (if the bit is
+            // set) in x's
+            let w: Vec<&str> = l.split_whitespace().collect();
+            if w.len() >= 6 && (w[0] == "inject" || w[0] == "injecthex") {
+                let x = if w[1] == "A" { SideId::A } else { SideId::B };
+                if let (Ok(ctl), Ok(seq), Ok(ack)) = (w[2].parse::<u64>(), w[3].parse::<u64>(), w[4].parse::<u64>()) {
+                    let seq2 = (seq as u32).wrapping_add(delta[x.peer() as usize]);
+                    let ack2 = if ctl & 16 != 0 { (ack as u32).wrapping_add(delta[x as usize]) } else { ack as u32 };
+                    let mut v: Vec<String> = w.iter().map(|s| s.to_string()).collect();
+                    v[3] = seq2.to_string();
+                    v[4] = ack2.to_string();
+                    line = v.join(" ");
+                }
+            }
+        }
+        if let Some((x, v)) = isn_of_line(l) {
+            let v2 = match alt {
+                Some((a, b)) => {
+                    if x == SideId::A {
+                        a
+                    } else {
+                        b
+                    }
+                }
+                None => v,
+            };
+            isn[x as usize] = v2;
+            let w: Vec<&str> = l.split_whitespace().collect();
+            line = format!("{} {} {} {}", w[0], w[1], v2, w[3]);
+        }
+        ex.apply(&line, scratch);
+        let x = match l.split_whitespace().nth(1) {
+            Some("B") => SideId::B,
+            _ => SideId::A,
+        };
+        let (iss, irs) = (isn[x as usize], isn[x.peer() as usize]);
+        // result: first word(s); emitted segments are printed from the history, normalised
+        let w: Vec<&str> = ex.last.split_whitespace().collect();
+        let res = match w.first().copied() {
+            Some("emit") => format!("emit {}", w.get(1).unwrap_or(&"")),
+            Some("response") => format!("response {}", w.get(1).unwrap_or(&"")),
+            _ => ex.last.clone(),
+        };
+        let segs: Vec<String> = ex.last_emitted.iter().map(|i| format!("{}/{}", norm_hdr(&ex.history[*i].0, iss, irs), full(&ex.history[*i].1))).collect();
+        let dump = match (ex.snap_ref(x), ex.side(x).listen) {
+            (Some(s), _) => norm_snapshot(s, iss, irs),
+            (None, Some((i, m))) => format!("listen({},{})", rel(i, iss), m),
+            (None, None) => "none".into(),
+        };
+        recs.push((res, segs.join(" "), dump));
+    }
+    recs
+}
+
+fn pick_alt(rng: &mut Rng, span: u64) -> u32 {
+    let near = |c: u64, rng: &mut Rng| ((c + P32 + rng.below(140001) - 70000) % P32) as u32;
+    match rng.below(6) {
+        0 => rng.next() as u32,
+        1 => near(0, rng),
+        2 => near(P31, rng),
+        // the space wraps (resp. crosses 2^31) in the middle of the handshake / of the transfer
+        3 => ((P32 - rng.below(span + 3)) % P32) as u32,
+        4 => ((P31 + P32 - rng.below(span + 3)) % P32) as u32,
+        _ => u32::MAX - rng.below(2) as u32,
+    }
+}
+
+/// compare the two executions; on a difference report an oracle failure
+fn compare(ops: &[String], alt: (u32, u32), scratch: &mut Out, out: &mut Out, probe: Option<&str>) {
+    let t1 = trace(ops, None, scratch);
+    let t2 = trace(ops, Some(alt), scratch);
+    let lines: Vec<&String> = ops.iter().filter(|l| !l.starts_with("case ") && !l.starts_with("alt ")).collect();
+    out.count_n("run.ops_compared", t1.len() as u64);
+    for (i, (r1, r2)) in t1.iter().zip(t2.iter()).enumerate() {
+        if r1 != r2 {
+            let (kind, a, b) = if r1.0 != r2.0 {
+                ("result", &r1.0, &r2.0)
+            } else if r1.1 != r2.1 {
+                ("segments", &r1.1, &r2.1)
+            } else {
+                ("state", &r1.2, &r2.2)
+            };
+            let op = lines[i].split_whitespace().next().unwrap_or("");
+            let orig: Vec<String> = ops.iter().filter_map(|l| isn_of_line(l)).map(|(x, v)| format!("{}={}", x.name(), v)).collect();
+            fail(
+                out,
+                &format!(
+                    "the same schedule behaves differently under ISNs [{}] and [A={} B={}]: op #{} `{}` {} differ: `{}` vs `{}`",
+                    orig.join(" "),
+                    alt.0,
+                    alt.1,
+                    i,
+                    lines[i],
+                    kind,
+                    a.chars().take(700).collect::<String>(),
+                    b.chars().take(700).collect::<String>()
+                ),
+                &match probe {
+                    Some(p) => format!("isn-dependent {}", p),
+                    None => format!("isn-dependent {} of {}", kind, op),
+                },
+            );
+            return;
+        }
+    }
+    out.count("run.identical");
+}
+
+/// scripted witnesses of the places where `tcb.rs` holds an ABSOLUTE number (notes/C12.md).
+/// F-C12-2: `SND.WL2` is copied from the ACK field of a SYN without ACK bit (0 from an Elvis
+/// peer) and stays so when the connection leaves SYN-RECEIVED through `close()`; the window-update
+/// test `SND.WL1 == SEG.SEQ && SND.WL2 <= SEG.ACK` then compares real ACK numbers with it.
+fn probes(first_case: u64, scratch: &mut Out, out: &mut Out) {
+    let scripts: [(&str, (u32, u32), &[&str]); 2] = [
+        (
+            "wl2 close-in-syn-received",
+            ((P31 + 100) as u32, 0),
+            &["open A 100 1500", "inject A 2 5000 0 65535 0 0", "close A", "inject A 18 5000 101 1234 0 0"],
+        ),
+        (
+            "wl2 fin-in-syn-received",
+            ((P31 + 100) as u32, 0),
+            &["open A 100 1500", "inject A 2 5000 0 65535 0 0", "inject A 1 5001 0 65535 0 0", "inject A 18 5000 101 1234 0 0"],
+        ),
+    ];
+    for (k, (name, alt, lines)) in scripts.iter().enumerate() {
+        let mut ex = Exec::new(Oracles { prefix: false, c17: false });
+        out.begin_case(first_case + k as u64);
+        for l in lines.iter() {
+            ex.apply(l, out);
+        }
+        out.line(&format!("alt {} {}", alt.0, alt.1), "alt");
+        out.count("run.probes");
+        let ops = out.current_ops();
+        compare(&ops, *alt, scratch, out, Some(name));
+        out.end_case();
+    }
+}
+
+fn run_runs(args: &Args) {
+    let mut out = Out::new(&args.out);
+    out.max_failures = 40;
+    let mut scratch = Out::new(&args.out.join("scratch"));
+    let steps: u64 = args.extra.get("steps").and_then(|s| s.parse().ok()).unwrap_or(200);
+    let closes = args.extra.get("closes").map(|s| s == "1").unwrap_or(false);
+    if let Some(p) = &args.replay {
+        let ops = read_ops(p);
+        let mut ex = Exec::new(Oracles { prefix: false, c17: false });
+        out.begin_case(0);
+        out.mark_nontrivial();
+        let mut alts = vec![];
+        for l in &ops {
+            if l.starts_with("case ") {
+                continue;
+            }
+            if let Some(rest) = l.strip_prefix("alt ") {
+                let v: Vec<u32> = rest.split_whitespace().filter_map(|s| s.parse::<u64>().ok()).map(|v| v as u32).collect();
+                if v.len() == 2 {
+                    alts.push((v[0], v[1]));
+                }
+                out.line(l, "alt");
+                continue;
+            }
+            ex.apply(l, &mut out);
+        }
+        if alts.is_empty() {
+            alts.push((u32::MAX, (P31 - 1) as u32));
+        }
+        let probe = ops.iter().find_map(|l| l.strip_prefix("# probe ").map(|s| s.to_string()));
+        for a in alts {
+            compare(&ops, a, &mut scratch, &mut out, probe.as_deref());
+        }
+        out.end_case();
+        out.finish(RULE_RUN);
+        return;
+    }
+    let mut rng = Rng::new(args.seed);
+    for c in 0..args.cases {
+        let mut r = rng.fork();
+        let mut ex = Exec::new(Oracles { prefix: true, c17: true });
+        out.begin_case(c);
+        schedule_case(&mut ex, &mut r, &mut out, &SchedCfg { steps, closes });
+        if !ex.a.delivered.is_empty() || !ex.b.delivered.is_empty() {
+            out.mark_nontrivial();
+        }
+        let span = [ex.a.submitted.len() as u64, ex.b.submitted.len() as u64];
+        let ops = out.current_ops();
+        for _ in 0..2 {
+            let alt = (pick_alt(&mut r, span[0]), pick_alt(&mut r, span[1]));
+            let line = format!("alt {} {}", alt.0, alt.1);
+            out.line(&line, "alt");
+            out.count("run.pairs");
+            for (k, v) in [alt.0, alt.1].iter().enumerate() {
+                let end = *v as u64 + span[k] + 2;
+                if end >= P32 {
+                    out.count("run.wraps_2^32_during_connection");
+                } else if (*v as u64) < P31 && end >= P31 {
+                    out.count("run.crosses_2^31_during_connection");
+                }
+            }
+            compare(&ops, alt, &mut scratch, &mut out, None);
+        }
+        out.end_case();
+    }
+    probes(args.cases, &mut scratch, &mut out);
+    out.finish(RULE_RUN);
+}
+
 pub fn run(args: &Args) {
-    eprintln!("hcore: {} not implemented yet", args.prop);
-    std::process::exit(2);
+    match args.prop.as_str() {
+        "c12" => run_grid(args),
+        _ => run_runs(args),
+    }
 }
